@@ -58,8 +58,13 @@ def sides(ck, an):
 def cash_at_par(ck, an):
     """The base currency is quoted at 1.0 / 1.0 when an episode starts (cash is worth its face value)."""
     fr = an.fa("TradingEnv.reset")
-    seeds = [c for c in fr.calls_named("process_EventNBBO") if c.args and isinstance(c.args[0], ast.Call) and len(c.args[0].args) >= 4 and "Cash" in ast.unparse(c.args[0].args[1])]
-    ok = len(seeds) == 1 and [const_value(a) for a in seeds[0].args[0].args[2:4]] == [1.0, 1.0]
+    seeds = []
+    for c in fr.calls_named("process_EventNBBO"):
+        if c.args:
+            ev_, _at = deref(fr, c.args[0])          # the event may be built in a temporary first
+            if isinstance(ev_, ast.Call) and len(ev_.args) >= 4 and "Cash" in ast.unparse(ev_.args[1]):
+                seeds.append(c)
+    ok = len(seeds) == 1 and [const_value(a) for a in deref(fr, seeds[0].args[0])[0].args[2:4]] == [1.0, 1.0]
     ck.check(ok, "CONST", "S1.cash-quoted-at-par", fr.f.short, fr.f.loc, "reset quotes cash at bid = ask = 1.0", f"cash seed quotes: {[ast.unparse(c.args[0])[:60] for c in seeds]}", construct="EventNBBO(self.now(), Cash(), 1.0, 1.0)")
     procs = fr.calls_to("TradingEnv._process_latent_events", "TradingEnv._process_nonlatent_events")
     if seeds and procs:
